@@ -1,5 +1,66 @@
+//! rv-manifest: runtime monitors for the transaction-manifest text pipeline.
+//!   C30  decompile -> compile identity (V1, V2, subintent, system manifests)
+//!   C31  manifest compiler + diagnostics rendering never panic, are deterministic
+//!   C36  static manifest validation accepts only valid object lifecycles (static half)
+mod c30;
+mod c31;
+mod built;
+mod c36;
+mod gen;
+mod lifecycle;
+
+fn load_replay(path: &std::path::Path) -> serde_json::Value {
+    let text = std::fs::read_to_string(path).unwrap_or_else(|e| {
+        eprintln!("cannot read replay file {}: {e}", path.display());
+        std::process::exit(2)
+    });
+    serde_json::from_str(&text).unwrap_or_else(|e| {
+        eprintln!("cannot parse replay file: {e}");
+        std::process::exit(2)
+    })
+}
+
 fn main() {
     let args = rv_common::parse_args();
-    eprintln!("no check named {}", args.prop);
-    std::process::exit(2);
+    rv_common::install_panic_capture();
+    if let Some(path) = &args.replay {
+        let doc = load_replay(path);
+        let code = match args.prop.as_str() {
+            "C30" => c30::replay(&args, &doc),
+            "C31" => c31::replay(&args, &doc),
+            "C36" => c36::replay(&args, &doc),
+            p => {
+                eprintln!("no check named {p}");
+                2
+            }
+        };
+        std::process::exit(code);
+    }
+    if args.extra.iter().any(|a| a == "probe") && args.prop == "C30" {
+        c30::probe();
+        return;
+    }
+    if args.extra.iter().any(|a| a == "minimize") && args.prop == "C31" {
+        // rv-manifest C31 minimize <replay.json>
+        let path = args.extra.iter().skip_while(|a| *a != "minimize").nth(1).expect("replay file");
+        let doc = load_replay(std::path::Path::new(path));
+        let bytes = rv_common::unhex(doc["detail"]["text_hex"].as_str().unwrap_or(""));
+        let text = String::from_utf8_lossy(&bytes).into_owned();
+        let kind = gen::Kind::from_name(doc["detail"]["kind"].as_str().unwrap_or("V1")).unwrap_or(gen::Kind::V1);
+        let mock = doc["detail"]["mock_blobs"].as_bool().unwrap_or(false);
+        let sig = doc["signature"].as_str().unwrap_or("");
+        let m = c31::minimize(&text, kind, mock, sig);
+        println!("minimal text ({} chars) for {sig}: {:?}", m.chars().count(), m);
+        return;
+    }
+    let report = match args.prop.as_str() {
+        "C30" => c30::run(&args),
+        "C31" => c31::run(&args),
+        "C36" => c36::run(&args),
+        p => {
+            eprintln!("no check named {p}");
+            std::process::exit(2);
+        }
+    };
+    std::process::exit(report.finish());
 }
